@@ -10,6 +10,10 @@ CLAIMED = {
          "contract-based deductive verification: weakest-precondition style VCs over go/ssa of /repo, discharged by z3 4.8.12 / z3 5.1.0 / cvc5 1.0",
          "DESIGN.md §3 C14"),
 }
+CLAIMED["C01"] = ("Deductive proof of the implicit safety obligations (index/slice bounds, nil dereference, nil-map write, failed type assertion, division by zero, make size, explicit panic, callee preconditions) plus the representation invariants that carry them, on every function of the reader path that is under contract; termination (decreases) for the loops that carry a variant.",
+  "Partial: see evidence.not_covered (functions not yet under contract, obligations listed as not claimed, termination of interpreter loops, stack exhaustion). Trusted: govc, go/ssa, solvers, stdlib contracts listed in the evidence.",
+  "contract-based deductive verification: weakest-precondition style VCs over go/ssa of /repo, discharged by z3 4.8.12 / z3 5.1.0 / cvc5 1.0",
+  "DESIGN.md §3 C01")
 NA = {}
 ALL = ["C%02d" % i for i in range(1, 21)]
 for p in ALL:
